@@ -137,6 +137,7 @@ func c07Run(c *core.Ctx, idx int) {
 	if maxLen > 6 {
 		maxLen = 6
 	}
+	deepTree := depth > 9 // (a spiced tree with a chain of 10..18 levels: long paths are followed to the bottom below)
 	check := func(path []int) bool {
 		c.Count("paths")
 		wv, wok, failStep, level := refTraverse(root, path)
@@ -229,6 +230,69 @@ func c07Run(c *core.Ctx, idx int) {
 		}
 		if !check(path) {
 			return
+		}
+	}
+	if deepTree {
+		// paths of 10..24 indices down the chain (the chain hangs at the end of the root; each level holds [number, next])
+		var last int
+		for last = root.Len() - 1; last >= 0; last-- {
+			if v, _ := root.Index(last); v != nil {
+				if _, ok := AsStack(v); ok {
+					break
+				}
+			}
+		}
+		for L := 8; L <= depth+3 && L <= 26 && last >= 0; L++ {
+			path = path[:0]
+			path = append(path, last)
+			for i := 1; i < L; i++ {
+				path = append(path, 1)
+			}
+			if !check(path) {
+				return
+			}
+			path[len(path)-1] = 0
+			if !check(path) {
+				return
+			}
+		}
+		c.Count("trees.long-paths-down-a-deep-chain")
+	}
+	if idx%5 == 2 {
+		// Traverse issued from INSIDE a push policy of a mutex-enabled level (the level's lock is held by the Push that
+		// consults the policy): reading is lock-free, so the answers are what they are at any other moment
+		var lvl stackage.Stack
+		var find func(s stackage.Stack, d int)
+		find = func(s stackage.Stack, d int) {
+			if d > 5 || lvl.IsInit() {
+				return
+			}
+			for i := 0; i < s.Len(); i++ {
+				v, _ := s.Index(i)
+				if ns, ok := AsStack(v); ok && ns.IsInit() {
+					if !ns.IsReadOnly() && ns.Cap() < 0 && d >= 0 {
+						lvl = ns
+						return
+					}
+					find(ns, d+1)
+				}
+			}
+		}
+		find(root, 0)
+		if lvl.IsInit() {
+			lvl.SetMutex()
+			okInside := true
+			lvl.SetPushPolicy(func(...any) error {
+				path = path[:0]
+				okInside = rec(2)
+				return nil
+			})
+			lvl.Push("pushed-while-traversing")
+			lvl.SetPushPolicy(nil)
+			if !okInside {
+				return
+			}
+			c.Count("trees.traversed-from-inside-a-push-policy")
 		}
 	}
 	if idx%3 == 0 {
